@@ -237,16 +237,23 @@ def neg(d):
 
 
 def r_bound_stride_sites(F, R):
+    from core import all_ctxs
     n = 0
-    for b in F.bodies.values():
-        if b.in_tests() or b.derived:
+    todo = []
+    for tb in F.bodies.values():
+        if tb.in_tests() or tb.derived or tb.kind == "Closure":
             continue
-        ctx = None
+        has = any(callee_tag(t.get("callee")) == ("Stride", "index") for (_, t) in tb.calls()) or any(
+            any(callee_tag(t.get("callee")) == ("Stride", "index") for (_, t) in cb.calls())
+            for cb in F.closures_of.get(tb.key, []))
+        if has:
+            todo.extend(all_ctxs(F, tb))
+    for ctx in todo:
+        b = ctx.body
         for (bi, t) in b.calls():
             tag = callee_tag(t.get("callee"))
             if tag != ("Stride", "index"):
                 continue
-            ctx = ctx or Ctx(b)
             n += 1
             R.saw(b)
             recv = trees(ctx, ctx.org.operand(t["args"][0]))
